@@ -1719,12 +1719,15 @@ class MainProvider(ResolverMixin, BaseProvider):
 
         rtn_tups = []
         for cn in rtn_classnames:
-            rtn_tups.append((CIMClassName(cn, namespace=namespace,
-                                          host=self.host),
-                             self.get_class(namespace, cn,
-                                            include_qualifiers=iq,
-                                            include_classorigin=ico,
-                                            property_list=pl)))
+            classpath = CIMClassName(cn, namespace=namespace, host=self.host)
+            klass = self.get_class(namespace, cn,
+                                   include_qualifiers=iq,
+                                   include_classorigin=ico,
+                                   property_list=pl)
+            # As documented for WBEMConnection.Associators()/References(),
+            # the path attribute of the class is set to the class path.
+            klass.path = classpath.copy()
+            rtn_tups.append((classpath, klass))
         return rtn_tups
 
     def _subclasses_lc(self, classname, class_store):
